@@ -155,7 +155,16 @@ fn observe(ctx: &Ctx, s: &Scenario) -> Obs {
   if s.include_sim {
     urls.push(sim_url);
   }
-  let info = B::dict(vec![("name", B::s("n")), ("piece length", B::Int(16384)), ("pieces", B::Bytes(vec![9; 20])), ("length", B::Int(5)), ("x-salt", B::s(&s.label))]);
+  // the torrent's own shape must not matter to the exchange: content of 5 bytes, of 0 bytes (single and multi-file), or huge
+  let shape = crate::report::fnv_str(&s.label) % 4;
+  let mut fields = vec![("name", B::s("n")), ("piece length", B::Int(16384)), ("x-salt", B::s(&s.label))];
+  match shape {
+    0 => fields.extend([("pieces", B::Bytes(vec![])), ("length", B::Int(0))]),
+    1 => fields.extend([("pieces", B::Bytes(vec![])), ("files", B::List(vec![B::dict(vec![("length", B::Int(0)), ("path", B::List(vec![B::s("empty")]))])]))]),
+    2 => fields.extend([("pieces", B::Bytes(vec![9; 20])), ("length", B::Int(1 << 50))]),
+    _ => fields.extend([("pieces", B::Bytes(vec![9; 20])), ("length", B::Int(5))]),
+  }
+  let info = B::dict(fields);
   let ih = sha1::Sha1::from(info.encode()).digest().bytes();
   let torrent = B::dict(vec![("info", info), ("announce", B::s(&urls[0])), ("announce-list", B::List(vec![B::List(urls.iter().map(|u| B::s(u)).collect())]))]).encode();
   let sb = Sandbox::new(&ctx.work, "c12");
@@ -234,6 +243,9 @@ pub fn run(ctx: &Ctx) -> Report {
         None
       }
     });
+    if s.include_sim && connects.is_empty() {
+      pf = Some("no connect request was sent to a valid UDP tracker URL (host and port given)".into());
+    }
     if accepted_cid.is_none() && !announces.is_empty() {
       pf = Some("an announce was sent although no connect reply was acceptable".into());
     }
